@@ -22,6 +22,8 @@ mod c06;
 mod c07;
 mod c08;
 mod c10;
+mod c15;
+mod c17;
 mod c18;
 mod c19;
 mod c20;
@@ -112,6 +114,8 @@ fn main() {
         "C07" => c07::run(&ctx),
         "C08" => c08::run(&ctx),
         "C10" => c10::run(&ctx),
+        "C15" => c15::run(&ctx),
+        "C17" => c17::run(&ctx),
         "C18" => c18::run(&ctx),
         "C19" => c19::run(&ctx),
         "C20" => c20::run(&ctx),
